@@ -1,5 +1,6 @@
 """Property table (kept apart from plan.py so that plan.py stays small)."""
 from .plan import register
+from . import frame
 
 BASE = ['elements']
 NUM = ['z3', 'cpython', 'numpy-scalar']
@@ -36,3 +37,7 @@ register('C19', level='proof', sidecars=BASE + ['components', 'periodic', 'loade
 register('C09', level='other', sidecars=BASE + ['components', 'periodic', 'transformers', 'multifreq'], trusted=NUM + ['numpy-array'],
          explanation='contracts on frequency_components (sinusoidal sources; periodic source with up to 8 harmonics), TimeDomainSolution (sum of |X_k| cos(w_k t + arg X_k), power = v(t) i(t)) '
                      'and FrequencyDomainSolution (one- and two-sided) for an arbitrary stubbed network solver; per-harmonic source phasors are the periodic translator contracts of C07')
+register('C20', level='proof', sidecars=BASE + ['components', 'loaders', 'dump_load', 'net_ops_bounded'], trusted=NUM + ['frame'], extras=[frame.obligations],
+         explanation='FRAME pass (ownership analysis by syntactic rules, pyvc/frame.py) over every function of Network/, Circuit/, SignalProcessing/ and dump_load.py: each mutation site '
+                     'mutates an object allocated by the same function; no global/nonlocal; module-level tables are never written. Plus the semantic frame obligations (inputs compared '
+                     'before/after the call) of the loader contracts. History independence then follows: every operation is a function of its arguments and leaves pre-existing objects unchanged.')
